@@ -120,7 +120,8 @@ async def list_dpts(filters: DptFilter | None = None) -> DptListResult:
         dpts=[_summarize_dpt(dpt) for dpt in window],
         total_count=len(matches),
         offset=filters.offset,
-        next_offset=filters.offset + len(window) if limit_reached else None,
+        # an empty page (limit 0) must not send a paging client around in circles
+        next_offset=filters.offset + len(window) if limit_reached and window else None,
         limit_reached=limit_reached,
     )
 
